@@ -134,7 +134,7 @@ class Ctx:
         if self.oneshot:
             # a fresh non-incremental solver per query: z3 then applies its one-shot tactic pipeline (for QF_FP:
             # bit-blasting + SAT), far faster than the incremental core on floating-point terms
-            s1 = z3.Solver()
+            s1 = z3.Then('simplify', 'qfnra-nlsat').solver() if self.oneshot == 'nlsat' else z3.Solver()
             s1.set('timeout', self.timeout_ms)
             s1.add(self.solver.assertions())
             s1.add(*extra)
